@@ -18,7 +18,9 @@
 
 mod exec;
 mod gen;
+mod graph_inbox;
 mod ident;
+mod inbox;
 
 use std::collections::BTreeSet;
 
@@ -38,7 +40,8 @@ pub const SPEC: PropertySpec = PropertySpec {
     real_components: &[
         "IngressEnvelope::local_intent_with_causal_parents / compute_ingress_id",
         "WorldlineRuntime::ingest, submit_intent, ingest_ticketed_invocation, resolve_target, set_head_eligibility",
-        "HeadInbox ingest/admit with AcceptAll, KindFilter, Budgeted policies",
+        "Engine::ingest_intent, dispatch_next_intent, pending_intent_count, inbox::ack_pending_rule (graph inbox `sim/inbox`, 1 run in 4)",
+        "HeadInbox ingest/admit with AcceptAll, KindFilter, Budgeted policies; HeadInbox::set_policy between admissions (standalone inbox surface)",
         "SchedulerCoordinator::super_tick, Engine::commit_with_state (event materialisation), WorldlineState::committed_ingress",
         "ProvenanceService (entries, tick receipts)",
         "restart: witnessed_submission_persistence_snapshot, restore_witnessed_submission_persistence, restore_causal_runtime_history on a freshly built runtime / provenance service / engine",
@@ -55,7 +58,7 @@ pub const SPEC: PropertySpec = PropertySpec {
         "a no-restart twin is compared with its restarting family only on pending sets and on (head, admitted count, worldline tick, state root, commit hash): the global tick is restored from the last commit, so empty passes before a restart are not counted again",
         "schedules whose implied partition differs (delay across an epoch boundary) are checked against the reference model only, and against each other if they form a family of their own",
         "a scheduler pass that fails must fail identically in every schedule of the family; comparison stops there",
-        "inbox policies cannot be changed on a live head through the public API (HeadInbox::set_policy exists, the registry's mutable access is crate-private; hook H7 set_inbox_policy is not present), so policy changes between passes are not simulated",
+        "inbox policies cannot be changed on a registered head through the public API (the registry's mutable access is crate-private), so policy changes between admissions are simulated on a standalone HeadInbox (the object a head owns) with its own reference model, not inside the runtime schedules",
     ],
     fault_kinds: &["fault.retry_while_pending", "fault.retry_after_commit", "fault.retry_after_restart", "fault.reordered_delivery", "fault.delayed_across_epoch", "fault.clean_restart"],
 };
@@ -112,6 +115,12 @@ pub struct C08 {
     /// restart after the pass of epoch e (ticketed mode only)
     pub restarts: Vec<bool>,
     pub schedules: Vec<Schedule>,
+    /// standalone head-inbox tape with policy changes between admissions
+    #[serde(default)]
+    pub inbox_tape: inbox::InboxTape,
+    /// legacy graph inbox (`Engine::ingest_intent` / `dispatch_next_intent`) tape
+    #[serde(default)]
+    pub graph_inbox: graph_inbox::GraphInboxTape,
 }
 
 fn short(ids: &[[u8; 32]]) -> Vec<String> {
@@ -195,6 +204,12 @@ impl Scenario for C08 {
     }
 
     fn execute(&self, ctx: &mut RunCtx) -> Outcome {
+        if let Err(v) = inbox::check(&self.inbox_tape, &self.intents, ctx) {
+            return v;
+        }
+        if let Err(v) = graph_inbox::check(&self.graph_inbox, ctx) {
+            return v;
+        }
         if self.schedules.is_empty() || self.n_epochs == 0 {
             return Outcome::Ok;
         }
@@ -277,6 +292,38 @@ impl Scenario for C08 {
 
     fn shrink_candidates(&self) -> Vec<Self> {
         let mut out = Vec::new();
+        if !self.graph_inbox.ops.is_empty() {
+            let mut s = self.clone();
+            s.graph_inbox = Default::default();
+            out.push(s);
+            if !self.schedules.is_empty() || !self.inbox_tape.ops.is_empty() {
+                let mut s = self.clone();
+                s.schedules.clear();
+                s.inbox_tape = Default::default();
+                out.push(s);
+            }
+            for i in (0..self.graph_inbox.ops.len()).rev() {
+                let mut s = self.clone();
+                s.graph_inbox.ops.remove(i);
+                out.push(s);
+            }
+        }
+        // inbox surface: drop it, or keep only it, or drop one of its ops
+        if !self.inbox_tape.ops.is_empty() {
+            let mut s = self.clone();
+            s.inbox_tape = Default::default();
+            out.push(s);
+            if !self.schedules.is_empty() {
+                let mut s = self.clone();
+                s.schedules.clear();
+                out.push(s);
+            }
+            for i in (0..self.inbox_tape.ops.len()).rev() {
+                let mut s = self.clone();
+                s.inbox_tape.ops.remove(i);
+                out.push(s);
+            }
+        }
         // drop a schedule (keep >= 2)
         if self.schedules.len() > 2 {
             for i in (0..self.schedules.len()).rev() {
